@@ -122,6 +122,7 @@ structure McSt where
   runs : Nat := 0
   dead : Bool := false
   refenum : Bool := false
+  refrelax : Bool := false                  -- additionally enumerate with the identical-message reduction restricted to equal options (W lines)
   preds : Bool := false
 
 def buildSys (st : McSt) : Sys :=
